@@ -180,7 +180,7 @@ def translate(run: Run) -> bool:
         iff = loop.body[0]
         if not (isinstance(iff, ast.If) and not iff.orelse and [_norm(s) for s in iff.body] == ["rounding_precision = precision", "break"]):
             raise Untranslatable("precision loop body: " + _norm(iff))
-        # value of rounding_precision before the loop: `max(rounding_options)` (largest key; the model's max_key),
+        # value of rounding_precision before the loop: `max(rounding_options)` / `min(...)` (largest / smallest key; the model's max_key / min_key),
         # an int literal, or None (the code before the repair 6d6bb6f: round(None) raises when no option fits)
         init = [a for a in gd.body if isinstance(a, ast.Assign) and len(a.targets) == 1 and _norm(a.targets[0]) == "rounding_precision"]
         stores = [n for n in ast.walk(gd) if isinstance(n, ast.Name) and n.id == "rounding_precision" and not isinstance(n.ctx, ast.Load)]
@@ -194,6 +194,8 @@ def translate(run: Run) -> bool:
             init_coq = f"Some ({iv.value})%Z"
         elif _norm(iv) == "max(rounding_options)":
             init_coq = "max_key gen_rounding_options"
+        elif _norm(iv) == "min(rounding_options)":
+            init_coq = "min_key gen_rounding_options"
         else:
             raise Untranslatable("initial value of rounding_precision: " + _norm(iv))
         zt = {"min_spacing_between_visits": "Q"}
@@ -308,7 +310,7 @@ def translate(run: Run) -> bool:
             raise Untranslatable("_check_features shape:\n" + "\n".join(_shape(_body(M["_check_features"]))))
         run.gen("GenC18", "\n".join(out))
         run.trusted.append("translator harness/translate/pyvalid.py + pysym.py + harness/props/c18.py (python ast -> requirement rows, key lists, "
-                           "constants, beta parameters, precision loop, statement order of simulate.py / base.py)")
+                           "constants, beta parameters, precision loop and the value bound before it, statement order of simulate.py / base.py)")
         return True
     except (Untranslatable, KeyError, OSError, SyntaxError, IndexError, AttributeError) as e:
         run.broken("translate:GenC18", f"{type(e).__name__}: {e}", kind="broken-translation")
@@ -874,6 +876,16 @@ def check_result(run: Run, d, shape, seed, res, rec, info):
         if not np.all(np.isfinite(vals)) or vals.min() < 0 or vals.max() > 1:
             bad("result:values-outside-unit-interval", "a simulated value is missing, not finite or outside [0,1]", "[0,1]",
                 dict(min=float(np.nanmin(vals)), max=float(np.nanmax(vals)), nan=int(np.isnan(vals).sum())))
+    if d["visit_type"] == "random" and ok and rec is not None and rec.timepoints is not None:
+        # the ages requested by the visit generator, rounded to the documented precision (duplicates dropped) — for every spacing
+        req = {str(k): v for k, v in rec.timepoints.items()}
+        for i in want_ids:
+            want = sorted({float(np.round(float(t), p)) for t in req.get(i, [])})
+            got = df.loc[df["ID"].astype(str) == i, "TIME"].to_numpy(dtype=float).tolist()
+            if len(want) != len(got) or any(abs(a - b) > 1e-9 for a, b in zip(want, got)):
+                bad("result:generated-ages", f"ages of an individual are not the generated visit ages rounded to {p} decimals "
+                    "(the documented precision for this spacing)", want, got)
+                break
     if d["visit_type"] == "dataframe" and ok:
         rows = d["params"]["df_visits"][3]
         for i in want_ids:
@@ -1138,7 +1150,7 @@ def main(run: Run):
         "NaN/inf parameters and ID columns mixing types are outside the model",
     ]
     run.explanation = ("Theorems (Coq, all designs / visit lists / precisions / model values) on a model whose requirement rows, key lists, constants, "
-                       "beta-parameter formulas and precision loop are regenerated from the Python AST and proved equal to the hand-written model; the "
+                       "beta-parameter formulas, precision loop and the precision bound before it are regenerated from the Python AST and proved equal to the hand-written model; the "
                        "constructor's decision function, the outcome of model.simulate, the row post-processing, the noise parameters and the visit loop are "
                        "run inside Coq (vm_compute, exact rationals) on what the implementation just did; property oracles run on every completed call.")
     if not ok_t or not ok_p:
